@@ -28,7 +28,7 @@ def known_match(f, sc):
 class _Phys:
     """second phase: the real binary on ids that are path prefixes of one another (direct layout) and ordinary ids
     (hashed layouts); every operation judged for 'no other object changes, purge removes exactly the named object'"""
-    BUDGET = {"quick": dict(histories=40, ops=12, seconds=60), "thorough": dict(histories=400, ops=22, seconds=600)}
+    BUDGET = {"quick": dict(histories=60, ops=12, seconds=80), "thorough": dict(histories=400, ops=22, seconds=600)}
     CORRESPONDENCE = "n/a (oracle-only phase)"
     HISTORY_KW = dict(layouts=["0002-flat-direct-storage-layout", "0002-flat-direct-storage-layout", "0004-hashed-n-tuple-storage-layout",
                                "0006-flat-omit-prefix-storage-layout", "0007-n-tuple-omit-prefix-storage-layout"],
@@ -36,7 +36,8 @@ class _Phys:
                       ids=[["coll/2024/rep1", "coll/2024/rep2", "coll", "coll/2024"], ["a", "a/b/c", "a/b", "z"], ["x1", "x2", "x3"], ["deep/er/id", "deep", "other"],
                            ["a:obj1", "b:obj1", "a:obj2", "c:obj1"], ["ns:one", "other:one", "ns:two"],
                            # ids that run through the inner directories of another object
-                           ["p", "p/v1/content", "p/v1/content/x", "q"], ["obj", "obj/v1", "obj/v1/content/z/w", "obj/extensions/e"]],
+                           ["p", "p/v1/content", "p/v1/content/x", "q"], ["obj", "obj/v1", "obj/v1/content/z/w", "obj/extensions/e"],
+                           ["p", "p/v1/content", "p/v1/content/x", "q"], ["obj", "obj/v1/content", "obj/v1", "other"]],
                       weights=[30, 3, 6, 3, 4, 2, 1, 38, 12, 1], trace=False)
 
     @staticmethod
@@ -45,11 +46,56 @@ class _Phys:
         return [physprop.OthersUntouched()]
 
 
+def inner_ids_phase(rep, tier, seed):
+    """ids that map into the directories of a committed object (its version, content and extensions directories, one or
+    several levels down): creating, committing and purging them leaves that object byte for byte as it was"""
+    import os, random, re
+    from vlib import phys, faultprop
+    rng = random.Random(seed + 15)
+    fails = []
+    for i in range(3 if tier != "thorough" else 24):
+        sb = phys.Sandbox(ext_staging=(i % 2 == 1))
+        try:
+            for n, c in {"a.txt": b"alpha", "d/b.txt": b"beta"}.items():
+                fp = os.path.join(sb.src, n)
+                os.makedirs(os.path.dirname(fp), exist_ok=True)
+                open(fp, "wb").write(c)
+            layout, pre = rng.choice([("0002-flat-direct-storage-layout", ""), ("0006-flat-omit-prefix-storage-layout", "urn:a:")])
+            sb.run(["init", "-l", layout])
+            outer = pre + "p"
+            sb.run(["new", outer]); sb.run(["cp", "-r", outer, os.path.join(sb.src, "a.txt"), os.path.join(sb.src, "d"), "--", "/"])
+            sb.run(["commit", "-c", faultprop.TS, outer])
+            root_p = os.path.join(sb.root, "p")
+            if not os.path.isdir(root_p):
+                continue
+            before = phys.tree(root_p)
+            inner = [pre + x for x in rng.sample(["p/v1/content", "p/v1/content/x", "p/v1/content/d", "p/v1/content/d/deeper/still", "p/v1", "p/extensions/e", "p/v1/content/a.txt/z"], 4)]
+            for oid in inner:
+                for args in (["new", oid], ["cp", oid, os.path.join(sb.src, "a.txt"), "--", "/"], ["commit", "-c", faultprop.TS, oid], ["purge", "-f", oid]):
+                    r = sb.run(args)
+                    rep.evaluations += 1
+                    rep.classes.add("inner|%s|%s|rc%d" % (layout[:4], args[0], min(r["rc"], 3)))
+                    after = phys.tree(root_p)
+                    if after != before:
+                        fails.append("`%s %s` (exit %d) changed the committed object `%s`: %s" % (args[0], oid, r["rc"], outer, sorted(set(before.items()) ^ set(after.items()))[:3]))
+                        before = after
+        finally:
+            sb.close()
+    seen = set()
+    for f in fails:
+        key = f.split("`")[1].split(" ")[0]
+        if key in seen or len(seen) >= 3:
+            continue
+        seen.add(key)
+        rep.violation(dict(kind="oracle-failure", oracle="others-untouched (ids inside another object)", what=f))
+
+
 def run(rep, tier, seed, proof_broken=False):
     import vlib.props.C08 as me
     histprop.run(rep, me, tier, seed, proof_broken)
     from vlib import physprop
     physprop.run(rep, _Phys, tier, seed + 8, proof_broken)
+    inner_ids_phase(rep, tier, seed)
 
 
 def replay(rep, payload):
